@@ -105,7 +105,9 @@ def cmd_check(pid, tier):
     if os.environ.get("VERIF_BUDGET"):
         budget = float(os.environ["VERIF_BUDGET"])
     procs = _procs()
-    hashseeds = [0] if tier == "quick" else [0, 1, 2, 3, 7, 11, 101, 4242]
+    # pipefunc iterates sets of names in places, so the system's own event order depends on the hash seed:
+    # it is part of a run's identity (recorded in replay files); different workers use different values
+    hashseeds = [0, 1, 2, 3] if tier == "quick" else [0, 1, 2, 3, 7, 11, 101, 4242]
     scratch = tempfile.mkdtemp(prefix=f"verif-{pid}-")
     exit_code = 0
     import glob
